@@ -249,6 +249,75 @@ class BoolV:
         return str(self.b)
 
 
+class Poly:
+    """Laurent polynomial with integer coefficients over opaque function symbols: the
+    abstract domain for the algebraic form of equations (sums, differences, products and
+    quotients by a single term)."""
+
+    def __init__(self, terms: Optional[Dict[Tuple[Tuple[str, int], ...], int]] = None):
+        self.terms = {m: c for m, c in (terms or {}).items() if c != 0}
+
+    @staticmethod
+    def sym(name: str) -> "Poly":
+        return Poly({((name, 1),): 1})
+
+    @staticmethod
+    def const(k: int) -> "Poly":
+        return Poly({(): k})
+
+    @staticmethod
+    def _mul_mono(a, b):
+        d = dict(a)
+        for s_, e in b:
+            d[s_] = d.get(s_, 0) + e
+        return tuple(sorted((s_, e) for s_, e in d.items() if e != 0))
+
+    def __add__(self, o: "Poly") -> "Poly":
+        t = dict(self.terms)
+        for m, c in o.terms.items():
+            t[m] = t.get(m, 0) + c
+        return Poly(t)
+
+    def __neg__(self) -> "Poly":
+        return Poly({m: -c for m, c in self.terms.items()})
+
+    def __sub__(self, o: "Poly") -> "Poly":
+        return self + (-o)
+
+    def __mul__(self, o: "Poly") -> "Poly":
+        t: Dict = {}
+        for m1, c1 in self.terms.items():
+            for m2, c2 in o.terms.items():
+                m = Poly._mul_mono(m1, m2)
+                t[m] = t.get(m, 0) + c1 * c2
+        return Poly(t)
+
+    def div(self, o: "Poly") -> Optional["Poly"]:
+        if len(o.terms) != 1:
+            return None
+        (m2, c2), = o.terms.items()
+        if c2 not in (1, -1):
+            return None
+        inv = tuple((s_, -e) for s_, e in m2)
+        return self * Poly({inv: c2})
+
+    def __eq__(self, o) -> bool:
+        return isinstance(o, Poly) and self.terms == o.terms
+
+    def __hash__(self):
+        return hash(tuple(sorted(self.terms.items())))
+
+    def __repr__(self) -> str:
+        if not self.terms:
+            return "0"
+        parts = []
+        for m, c in sorted(self.terms.items()):
+            mono = "*".join(f"{s_}" if e == 1 else f"{s_}^{e}" for s_, e in m) or "1"
+            parts.append(("+" if c > 0 else "-") + (mono if abs(c) == 1 else f"{abs(c)}*{mono}"))
+        r = "".join(parts)
+        return r[1:] if r.startswith("+") else r
+
+
 class Record:
     def __init__(self, pid: str, arg: Any, node: ast.AST, facts: List[Aff], func: str):
         self.pid = pid
@@ -576,6 +645,8 @@ class Interp:
             return v.k != 0
         if isinstance(v, (Inst, ClassObj, Prov, Bound)):
             return True
+        if isinstance(v, DictV) and not v.open:
+            return bool(v.items)
         return None
 
     def refinements(self, test: ast.AST, fr: Frame) -> Tuple[List[Aff], List[Aff]]:
@@ -804,6 +875,21 @@ class Interp:
         return self.binop(node.op, self.ev(node.left, fr), self.ev(node.right, fr), node)
 
     def binop(self, op, l, r, node):
+        if isinstance(l, Poly) or isinstance(r, Poly):
+            lp = l if isinstance(l, Poly) else (Poly.const(l.k) if isinstance(l, Aff) and l.is_const() else None)
+            rp = r if isinstance(r, Poly) else (Poly.const(r.k) if isinstance(r, Aff) and r.is_const() else None)
+            if lp is None or rp is None:
+                return UNK
+            if isinstance(op, ast.Add):
+                return lp + rp
+            if isinstance(op, ast.Sub):
+                return lp - rp
+            if isinstance(op, ast.Mult):
+                return lp * rp
+            if isinstance(op, ast.Div):
+                q = lp.div(rp)
+                return q if q is not None else UNK
+            return UNK
         if isinstance(l, Join) and all(isinstance(v, Aff) for v in l.vals) and isinstance(r, (Aff, Join)):
             return Join([self.binop(op, v, r, node) for v in l.vals])
         if isinstance(r, Join) and all(isinstance(v, Aff) for v in r.vals) and isinstance(l, Aff):
@@ -856,7 +942,8 @@ class Interp:
             if i is not None:
                 if -len(obj.items) <= i < len(obj.items):
                     return obj.items[i]
-                raise self.err(node, f"index {i} out of range for a tuple of length {len(obj.items)} (would raise at run time)")
+                self.defects.append((node, f"index {i} is out of range for a tuple of length {len(obj.items)}: IndexError at run time for this arity"))
+                return UNK
             if any(isinstance(x, Prov) for x in obj.items):
                 raise self.err(node, "provider tuple indexed by a non-constant")
             return Join(obj.items) if obj.items else UNK
@@ -1035,12 +1122,18 @@ class Interp:
                 return Summ(UNK)
             if tail in ("cast",) and len(args) == 2:
                 return args[1]
+            if tail == "Eq" and len(args) == 2:
+                return Tup([StrV("Eq"), args[0], args[1]])
             if tail == "Counter":
                 return UNK
             return UNK
         return UNK
 
     def method(self, obj: Any, attr: str, args, kwargs, node, fr) -> Any:
+        if isinstance(obj, Poly):
+            if attr == "subs" and args and isinstance(args[0], DictV) and not args[0].items and not args[0].open:
+                return obj
+            return UNK
         if isinstance(obj, DictV):
             if attr == "get" and args:
                 k = args[0]
@@ -1055,8 +1148,12 @@ class Interp:
                 vals = list(obj.items.values())
                 return Summ(Join(vals + [UNK])) if obj.open else Tup(vals)
             if attr == "keys":
+                if not obj.open:
+                    return Tup([k if isinstance(k, StrV) else UNK for k in obj.items])
                 return Summ(UNK)
             if attr == "items":
+                if not obj.open:
+                    return Tup([Tup([k if isinstance(k, StrV) else UNK, v]) for k, v in obj.items.items()])
                 return Summ(Tup([UNK, UNK]))
             return UNK
         if isinstance(obj, Tup):
@@ -1160,6 +1257,9 @@ class Interp:
                 return Join(vals)
             return UNK
         if name == "all" or name == "any":
+            if isinstance(a0, Tup) and not a0.open and all(isinstance(x, DictV) and not x.open for x in a0.items):
+                vals = [bool(x.items) for x in a0.items]
+                return BoolV(all(vals) if name == "all" else any(vals))
             return UNK
         if name == "isinstance":
             if len(args) == 2 and isinstance(args[0], Inst):
